@@ -92,7 +92,16 @@ def run_check(prop, tier, seed):
                 evs, target = vf.context_events(r['path'], idx)
                 pending.append((code, evs, target, '%s:%d' % (os.path.basename(r['path']), idx)))
         for (code, evs, note) in extra_bads:
-            pending.append((code, evs, evs[-1], note))
+            if code is None:
+                # disagreement found by TLC's own enumeration: the failed demands are determined by
+                # re-executing the point through the trace specification
+                new, codes = vf.replay_events(harness, evs, scratch, module=plan.get('trace_module', 'Trace'))
+                if not codes:
+                    raise vf.HarnessError('graph disagreement at %s is not reproduced by the trace specification' % note)
+                for c in codes:
+                    pending.append((c, evs, new[-1], note))
+            else:
+                pending.append((code, evs, evs[-1], note))
 
         replayed_codes = {}
         for (code, evs, target, note) in pending:
